@@ -47,9 +47,44 @@ def run(repo: Repo) -> Result:
     res.assumptions = ["gettext.NullTranslations returns the singular iff n == 1"]
 
     # ---- C26-PERCENT / C26-VARS (filters) -------------------------------------------
+    import copy as _copy
+
+    from ..normalize import NFunc, propagate_aliases
+
     base = repo.cls(f"{F}.BaseTranslateFilter")
-    fm = base.methods["format_message"]
+    # (`autoescape = context.env.autoescape` / `resolve = context.resolve` aliases propagated)
+    fm = NFunc(base.methods["format_message"], propagate_aliases(_copy.deepcopy(base.methods["format_message"].node)))
     mods = _mod_sites(fm.node)
+
+    def doubling_ok(fn_expr) -> bool:
+        """the replacement function keeps a %(name)s placeholder (a match longer than one character)
+        and turns every other match into '%%' — a lambda, or a method/function doing the same"""
+        body = None
+        if isinstance(fn_expr, ast.Lambda):
+            param, body = fn_expr.args.args[0].arg if fn_expr.args.args else None, fn_expr.body
+            env = {}
+        else:
+            nm = fn_expr.attr if isinstance(fn_expr, ast.Attribute) else fn_expr.id if isinstance(fn_expr, ast.Name) else None
+            target = base.methods.get(nm) or repo.module(F).functions.get(nm) if nm else None
+            if target is None:
+                return False
+            ps = [p_ for p_ in target.params() if p_ not in ("self", "cls")]
+            param = ps[0] if ps else None
+            env = {st.targets[0].id: st.value for st in walk_no_nested(target.node) if isinstance(st, ast.Assign) and len(st.targets) == 1 and isinstance(st.targets[0], ast.Name)}
+            rets = [r.value for r in walk_no_nested(target.node) if isinstance(r, ast.Return) and r.value is not None]
+            body = rets[0] if len(rets) == 1 else None
+        if body is None or param is None or not isinstance(body, ast.IfExp):
+            return False
+
+        def is_match_text(e) -> bool:
+            if isinstance(e, ast.Name) and e.id in env:
+                e = env[e.id]
+            return isinstance(e, ast.Call) and callee_name(e) == "group" and is_name(call_recv(e), param) and (not e.args or (isinstance(e.args[0], ast.Constant) and e.args[0].value == 0))
+
+        t = body.test
+        longer = isinstance(t, ast.Compare) and len(t.ops) == 1 and isinstance(t.ops[0], ast.Gt) and isinstance(t.left, ast.Call) and is_name(t.left.func, "len") and is_match_text(t.left.args[0]) and isinstance(t.comparators[0], ast.Constant) and t.comparators[0].value == 1
+        return longer and is_match_text(body.body) and isinstance(body.orelse, ast.Constant) and body.orelse.value == "%%"
+
     res.ob(fm.qual, 3)
     if len(mods) != 1:
         res.add("C26-PERCENT", fm.qual, f"mod-sites:{len(mods)}", "format_message must apply exactly one printf-style % to the message", fm.file, fm.line)
@@ -72,7 +107,7 @@ def run(repo: Repo) -> Result:
             ok = len(doubled) == 1 and len(doubled) + len(rewraps) == len(binds) and all(b.lineno < m.lineno for b in binds)
             if doubled:
                 lam = doubled[0].value.args[0]
-                if not (isinstance(lam, ast.Lambda) and "'%%'" in text(lam) and "m.group()" in text(lam)):
+                if not doubling_ok(lam):
                     res.add("C26-PERCENT", fm.qual, "doubling-lambda", "the substitution must keep placeholders and replace every other % by %%", fm.file, doubled[0].lineno)
         if not ok:
             res.add("C26-PERCENT", fm.qual, f"raw-format:{text(left)[:30]}", f"format_message formats `{text(left)[:40]} % ...` without first doubling the percent signs that are not %(name)s placeholders: '100%' raises ValueError and '100% sure' loses characters", fm.file, m.lineno)
@@ -151,8 +186,20 @@ def run(repo: Repo) -> Result:
             res.add("C26-COUNT", cf.qual, "bool-membership", "membership in a tuple containing booleans also matches 0 and 1", cf.file, n.lineno)
     tr = repo.own_method(f"{F}.Translate", "__call__")
     res.ob(tr.qual, 2)
-    t = text(tr.node)
-    if "n = _count(kwargs.get('count'))" not in t or "if plural is not None and n is not None:" not in t:
+    # the count is `_count(kwargs.get(<name of the count argument>))` and the plural form is chosen
+    # exactly when both the plural text and that count are `is not None` (never by truthiness);
+    # the argument names may be literals or class attributes of the filter
+    from ..guards import canon as _canon
+    from ..guards import conjuncts as _conjuncts
+
+    n_vars = [st.targets[0].id for st in walk_no_nested(tr.node) if isinstance(st, ast.Assign) and len(st.targets) == 1 and isinstance(st.targets[0], ast.Name) and isinstance(st.value, ast.Call) and callee_name(st.value) == "_count" and st.value.args and isinstance(st.value.args[0], ast.Call) and callee_name(st.value.args[0]) == "get" and is_name(call_recv(st.value.args[0]), "kwargs")]
+    p_vars = [st.targets[0].id for st in walk_no_nested(tr.node) if isinstance(st, ast.Assign) and len(st.targets) == 1 and isinstance(st.targets[0], ast.Name) and isinstance(st.value, ast.Call) and callee_name(st.value) == "pop" and is_name(call_recv(st.value), "kwargs")]
+    ok_pl = False
+    if len(n_vars) == 1 and len(p_vars) >= 1:
+        for n_ in walk_no_nested(tr.node):
+            if isinstance(n_, ast.If) and {_canon(c) for c in _conjuncts(n_.test)} == {f"{p_vars[0]} is not None", f"{n_vars[0]} is not None"}:
+                ok_pl = True
+    if not ok_pl:
         res.add("C26-COUNT", tr.qual, "plural-test", "the t filter must choose the plural form when `plural is not None and n is not None`", tr.file, tr.line)
     for c in calls(tr.node):
         if callee_name(c) in ("ngettext", "npgettext") and text(c.args[-1]) != "n":
